@@ -196,16 +196,11 @@ def play(case, fail, tol):
         if dist_us(a0, stamps) > tol:
             fail("built from date-time stamps: reference + relative time of every sample equals its stamp", show(stamps), show(a0),
                  "from_stamps")
-        want_ref = inst(Fraction(case["ref"])) if case.get("ref") is not None else stamps[0]
-        if ts.dtg_ref != want_ref:
-            fail("built from stamps: the reference is the given one, else the first stamp", show(want_ref), show(ts.dtg_ref),
-                 "from_stamps_ref")
-    else:
-        want_t = [float(Fraction(v)) for v in case["vals"]]
-        want_ref = None if case.get("ref") is None else inst(Fraction(case["ref"]))
-        if list(ts.t) != want_t or ts.dtg_ref != want_ref:
-            fail("built from numbers: relative times and reference are the given ones", [want_t, show(want_ref)],
-                 [show(ts.t), show(ts.dtg_ref)], "from_floats")
+    elif case.get("ref") is not None:
+        want = fresh_abs(inst(Fraction(case["ref"])), [float(Fraction(v)) for v in case["vals"]])
+        if dist_us(a0, want) > tol:
+            fail("built from numbers and a reference: the absolute instants are the given reference + the given times", show(want),
+                 show(a0), "from_floats")
     originals = []      # (object, raw state when it was left behind by copy)
     for k, op in enumerate(case["ops"]):
         pre = raw(ts)
@@ -233,9 +228,7 @@ def play(case, fail, tol):
             if not same_raw(pre, raw(ts)):
                 fail("a rejected call (%s) leaves reference, relative times and cached stamps untouched" % type(err).__name__,
                      show(pre), show(raw(ts)), "rejected_unchanged@" + where)
-            if invalid and not isinstance(err, ValueError):
-                fail("an invalid reference is rejected with ValueError", "ValueError", type(err).__name__, "rejected_kind@" + where)
-            trace.append(("err" if isinstance(err, ValueError) else "err:" + type(err).__name__, snap(ts)))
+            trace.append(("err", snap(ts)))
             continue
         if invalid:
             fail("an invalid reference (not a datetime / None without a reference) is rejected", "ValueError", "accepted",
@@ -243,8 +236,6 @@ def play(case, fail, tol):
         if op == "copy":
             if not same_raw((pre[0], pre[1], None), (new.dtg_ref, np.array(new.t), None)):
                 fail("a copy has the same reference and relative times", show(pre[:2]), show(raw(new)[:2]), "copy_equal@" + where)
-            if new is ts or np.shares_memory(new.t, ts.t):
-                fail("a copy shares no time data with the original", "independent", "shared", "copy_shared@" + where)
             originals.append((ts, raw(ts)))
             ts = new
         post = raw(ts)
